@@ -149,6 +149,8 @@ def run(ctx):
     pending = not __import__("os").path.exists(core.COQ + "/Props/C03.v")
     if not pending:
         core.check_props(ctx, ["Props/C03.v"])
+        from vlib import ties2
+        ties2.run(ctx, "Tie/C03.v")
     cases = [gen_case(ctx.rng, odd=(i % 10 == 0)) for i in range(n)]
     reqs = [("rules_trace", c) for c in cases]
     impl = [impl_rules(c) for c in cases]
